@@ -263,6 +263,33 @@ Fixpoint tool_lines (o : wopts) (g : list Z -> list Z) (cr_out : bool) (ls : lis
 Definition foldfilter (o : wopts) (g : list Z -> list Z) (cr_in cr_out : bool) (input : list Z) : tres :=
   tool_lines o g cr_out (records 10 cr_in input).
 
+(* -w <num>: a non-empty string of decimal digits below 2^64 (what a size_t holds);
+   anything else is a usage error.  None = usage error (exit status 1). *)
+Fixpoint digits_value (acc : Z) (s : list Z) : option Z :=
+  match s with
+  | [] => Some acc
+  | c :: r => if (48 <=? c) && (c <=? 57) then digits_value (acc * 10 + (c - 48)) r else None
+  end.
+
+Definition parse_width (s : list Z) : option Z :=
+  match s with
+  | [] => None
+  | _ => match digits_value 0 s with
+         | Some v => if v <? 18446744073709551616 then Some v else None
+         | None => None
+         end
+  end.
+
+Inductive cres := CUsage | CRun (r : tres).
+
+(* foldfilter -w <wstr> [-s] -d <delims> child, as far as the width option goes *)
+Definition foldfilter_cli (wstr : list Z) (keep : bool) (delims : list Z) (g : list Z -> list Z) (input : list Z) : cres :=
+  match parse_width wstr with
+  | None => CUsage
+  | Some w => CRun (foldfilter {| w_width := w; w_keep := keep; w_delims := delims |} g
+                               fold_feeder_strip_cr fold_collector_strip_cr input)
+  end.
+
 (* the tool as built: the two strip_cr settings are read from the source *)
 Definition foldfilter_tool (o : wopts) (g : list Z -> list Z) (input : list Z) : tres :=
   foldfilter o g fold_feeder_strip_cr fold_collector_strip_cr input.
